@@ -401,30 +401,89 @@ func (c *Ctx) c17Lua() {
 			}
 			n++
 			cons := "CallByParam@" + shortFn(fn)
-			// args[1] = load of a local lua.P whose Protect field is stored true
-			prot := false
-			if u, ok := call.Call.Args[1].(*ssa.UnOp); ok {
-				if al, ok := u.X.(*ssa.Alloc); ok {
+			// args[1] = load of a local lua.P whose Protect field is stored true, or a parameter
+			// of a calling helper for which every caller passes such a value
+			var protectOf func(v ssa.Value, depth int) bool
+			protectOf = func(v ssa.Value, depth int) bool {
+				if depth > 3 {
+					return false
+				}
+				switch x := v.(type) {
+				case *ssa.UnOp:
+					al, ok := x.X.(*ssa.Alloc)
+					if !ok || al.Referrers() == nil {
+						return false
+					}
 					for _, ref := range *al.Referrers() {
 						if fa, ok := ref.(*ssa.FieldAddr); ok && eng.FieldOfAddr(fa).Name() == "Protect" {
 							for _, r2 := range *fa.Referrers() {
 								if st, ok := r2.(*ssa.Store); ok {
 									if b, isC := eng.ConstBool(st.Val); isC && b {
-										prot = true
+										return true
 									}
 								}
 							}
 						}
 					}
+				case *ssa.Parameter:
+					g := x.Parent()
+					pi := eng.ParamIndex(x)
+					sites := p.StaticCallSites(g)
+					if len(sites) == 0 || pi < 0 || g.Parent() != nil {
+						return false
+					}
+					for _, cs := range sites {
+						if pi >= len(cs.Args) || !protectOf(cs.Args[pi], depth+1) {
+							return false
+						}
+					}
+					return true
 				}
+				return false
 			}
+			prot := protectOf(call.Call.Args[1], 0)
 			if !prot {
 				r.Bad("C17/LUA/protect", cons, p.InstrPos(in), "CallByParam without Protect: true: a Lua error() panics the Go caller — in a before-hook that is the SMTP session goroutine, which has no recover, so a broken script kills the server and loses the mail")
 				return
 			}
 			// error edge returns nil (for handlers with a result); a helper that reports the
 			// failure as `false` is followed to its callers
-			if fn.Signature.Results().Len() == 1 {
+			if fn.Signature.Results().Len() == 1 && isErrorType(fn.Signature.Results().At(0).Type()) {
+				// a calling helper that hands the Lua error on: the handlers that call it must
+				// answer nil on its error edge
+				for _, cs := range p.StaticCallSites(fn) {
+					hc, ok := cs.Instr.(*ssa.Call)
+					if !ok {
+						continue
+					}
+					C := hc.Parent()
+					if C.Signature.Results().Len() != 1 || isErrorType(C.Signature.Results().At(0).Type()) {
+						continue
+					}
+					var edges []*ssa.BasicBlock
+					for _, b := range C.Blocks {
+						for k := 0; k < len(b.Succs) && len(b.Succs) == 2; k++ {
+							rel, ok := eng.EdgeRel(b, k)
+							if !ok || rel.Op != token.NEQ || !eng.IsNilConst(rel.Y) {
+								continue
+							}
+							same := rel.X == ssa.Value(hc)
+							for _, a := range eng.ValueAliases(hc) {
+								if rel.X == a {
+									same = true
+								}
+							}
+							if same {
+								edges = append(edges, b.Succs[k])
+							}
+						}
+					}
+					if bad := c.luaFailureYieldsNil(C, edges, 0); bad != "" {
+						r.Bad("C17/LUA/protect", cons, p.InstrPos(hc), "on a Lua error (reported by %s) the handler %s returns a non-nil answer at %s instead of behaving as if it had not answered", shortFn(fn), shortFn(C), bad)
+						return
+					}
+				}
+			} else if fn.Signature.Results().Len() == 1 {
 				isErrV := func(v ssa.Value) bool {
 					for _, a := range append(eng.ValueAliases(call), ssa.Value(call)) {
 						if v == a {
@@ -451,6 +510,34 @@ func (c *Ctx) c17Lua() {
 		})
 	}
 	r.Floor("C17/LUA/protect", "CallByParam sites", n, 1)
+	// a pooled Lua state goes back to the pool as it came out: per-call settings made on it
+	// (a context, …) are undone on every path, or the next hook that draws the state inherits
+	// them — a cancelled context makes every later before-hook on that state fail, i.e. answer
+	// nothing: deny stops refusing, allow stops overriding, replacements are dropped
+	r.Rule("C17/LUA/state-restored", "every (*LState).SetContext in the Lua host is followed on every path to the function's return by RemoveContext on that state (directly or deferred)")
+	nCtx := 0
+	ordC := map[string]int{}
+	for _, fn := range fns {
+		fn := fn
+		eng.EachInstr(fn, func(in ssa.Instruction) {
+			call, ok := in.(*ssa.Call)
+			if !ok || eng.CalleeName(call.Common()) != "(*github.com/yuin/gopher-lua.LState).SetContext" {
+				return
+			}
+			nCtx++
+			cons := siteCons(p, in, ordC, "SetContext")
+			recv := call.Call.Args[0]
+			isRemove := eng.CallPred(func(cc *ssa.CallCommon) bool {
+				return eng.CalleeName(cc) == "(*github.com/yuin/gopher-lua.LState).RemoveContext" && len(cc.Args) > 0 && (cc.Args[0] == recv || resolveCell(cc.Args[0]) == resolveCell(recv))
+			})
+			if ret := (&eng.Search{Target: eng.IsReturnOf(fn), Avoid: isRemove}).After(in); ret != nil {
+				r.Bad("C17/LUA/state-restored", cons, p.InstrPos(ret), "the function can return at %s with the context still set on the Lua state (e.g. on the error path of the call): the state goes back to the pool carrying a context that is cancelled when the function returns, and every later hook that draws it fails as if it had not answered", p.InstrPos(ret))
+			} else {
+				r.Ok("C17/LUA/state-restored", cons, p.InstrPos(in), "RemoveContext on every path to return")
+			}
+		})
+	}
+	r.Count("SetContext sites in the Lua host", nCtx)
 	// unwrap helpers
 	sm := c.stores()
 	if !sm.ok {
